@@ -33,6 +33,17 @@ func c12FailingExprs() []*lib.Node {
 	}
 }
 
+// c12JSONMembers: members of a constant JSON object, statically text; the
+// null, Boolean, object and array members cannot be written, "s" can.
+func c12JSONMembers() []*lib.Node {
+	doc := lib.Str(`{"a": null, "b": true, "o": {"x": "y"}, "l": ["p", "q"], "s": "txt", "e": "e2"}`)
+	var out []*lib.Node
+	for _, m := range []string{"a", "b", "o", "l", "s", "e", "s"} {
+		out = append(out, lib.Field(lib.Call("json", doc.Clone()), m))
+	}
+	return out
+}
+
 func isFailingExpr(n *lib.Node) bool {
 	_, err := lib.Eval(n, &lib.Env{K: "k", V: ""})
 	return err != nil
@@ -48,6 +59,18 @@ func checkC12(c *c12Case) (msg string, nontrivial bool, labels []string) {
 	mustFail := false
 	unknown := false
 	evalOp := func(n *lib.Node, k string) (string, bool) {
+		if n.K == "field" {
+			// a JSON member is typed as text, what it holds is only known
+			// when it is evaluated: only text and numbers can be written
+			if val, err := lib.Eval(n, &lib.Env{K: k}); err == nil {
+				switch val.(type) {
+				case nil, bool, map[string]any, []any:
+					mustFail = true
+					labels = append(labels, "json-member-not-writable")
+					return "", false
+				}
+			}
+		}
 		s, err := evalText(n, k, "")
 		if err != nil {
 			if errors.Is(err, lib.ErrMustFail) || isDivByConstZero(n) {
@@ -253,6 +276,9 @@ func TestC12(t *testing.T) {
 			if rapid.IntRange(0, 3).Draw(rt, "failing") == 0 {
 				st.Keys[rapid.IntRange(0, len(st.Keys)-1).Draw(rt, "failPos")] = rapid.SampledFrom(c12FailingExprs()).Draw(rt, "failExpr")
 			}
+			if rapid.IntRange(0, 5).Draw(rt, "jsonMember") == 0 {
+				st.Keys[rapid.IntRange(0, len(st.Keys)-1).Draw(rt, "jsonPos")] = rapid.SampledFrom(c12JSONMembers()).Draw(rt, "jsonExpr")
+			}
 		} else {
 			st = lib.GenPut(rt, kind, pairs, false)
 			if rapid.IntRange(0, 3).Draw(rt, "failing") == 0 {
@@ -263,6 +289,10 @@ func TestC12(t *testing.T) {
 				} else {
 					st.Pairs[i][1] = f
 				}
+			}
+			if rapid.IntRange(0, 5).Draw(rt, "jsonMember") == 0 {
+				i := rapid.IntRange(0, len(st.Pairs)-1).Draw(rt, "jsonPos")
+				st.Pairs[i][rapid.IntRange(0, 1).Draw(rt, "jsonInValue")] = rapid.SampledFrom(c12JSONMembers()).Draw(rt, "jsonExpr")
 			}
 		}
 		c := &c12Case{Stmt: st, Pairs: pairs, Polls: genPolls(rt), Batch: rapid.SampledFrom([]int{1, 2, 3, 32}).Draw(rt, "batch")}
